@@ -328,6 +328,15 @@ func genC10(tier string, r *rng) {
 		emitTree(true, []string{"d"}, []*node{dir("d", dir("a", f("x"), f("y")), f(sib), f("b"))})
 		emitTree(true, []string{"d"}, []*node{dir("d", dir("a", dir("a", f("z")), f(sib)), f(sib), dir("b", f("q")))})
 	}
+	// names that mean something to a pattern matcher, a shell or a path cleaner: glob metacharacters, backslash, leading dash,
+	// dots, percent / URL escapes, names that are patterns matching their siblings
+	for _, dn := range []string{"certs[old]", "a?", "star*", "x[", "b\\c", "{a,b}", "~", "%41", "..a", "a..", "...", "$HOME", "a;b", "a'b", "-r", "*"} {
+		emitTree(true, []string{"t"}, []*node{dir("t", dir(dn, f("one"), f("two")), dir("ab", f("three")), dir("starfish", dir("deep", f("six"))), f("a"), f("certso"))})
+		emitTree(true, []string{"t"}, []*node{dir("t", f(dn), f("ab"), f("a"))})
+	}
+	emitTree(true, []string{"a?"}, []*node{dir("a?", f("x")), dir("ab", f("y"))})
+	emitTree(true, []string{"*"}, []*node{dir("*", f("x")), dir("ab", f("y")), f("zz")})
+	emitTree(false, []string{"[a]", "a"}, []*node{f("[a]"), f("a")})
 	// byte-identical content under a reserved SSH file name and under other names, in both sort orders
 	keyLine := []byte("ssh-ed25519 AAAAC3NzaC1lZDI1NTE5AAAAIJxs8F0Bk4v0Xx0m9GTPF4k1q1m2Ztd3Gm2YX3R0Qq3x a@b")
 	kh := []byte("example.com ssh-ed25519 AAAAC3NzaC1lZDI1NTE5AAAAIJxs8F0Bk4v0Xx0m9GTPF4k1q1m2Ztd3Gm2YX3R0Qq3x\n")
